@@ -480,7 +480,8 @@ func (e *c09Env) world(pattern, profile, H int, root int64) *c09World {
 		return w.Blocks[f][h-1].LB.Hash()
 	}
 	for h := int(root) + 1; h <= H; h++ {
-		w.Blocks[c09FamEquiv][h] = e.build(c09Spec{Label: fmt.Sprintf("equiv@%d", h), Height: int64(h), Time: e.timeAt(int64(h)),
+		// (its time is a second later than the genuine block's: a conflicting header need not carry the same timestamp)
+		w.Blocks[c09FamEquiv][h] = e.build(c09Spec{Label: fmt.Sprintf("equiv@%d", h), Height: int64(h), Time: e.timeAt(int64(h)).Add(time.Second),
 			Vals: w.Sets[h], NextVals: w.Sets[h+1], App: "equiv", PrevHash: prevOf(c09FamEquiv, h), Slots: c09AllSign(w.Sets[h])})
 		// lunatic: the two biggest validators of the root set plus one attacker
 		rs := w.Sets[root]
